@@ -560,26 +560,27 @@ def r4_restorable(ctx, mod):
                    "pedal/sandbox assigns sys.stdout / sys.modules[...] / time.sleep / builtins.* or calls "
                    "sys.settrace outside a tracer's __enter__/__exit__")
     stm = mod.func('Sandbox._start_mocking')
-    sp_calls = [c for c in calls(stm) if is_self_call(c, '_start_patches')]
-    ctx.require(len(sp_calls) == 1, "_start_mocking does not call _start_patches exactly once")
-    targets = []
-    for a in sp_calls[0].args:
-        ok = isinstance(a, ast.Call) and call_name(a) in ('patch', 'patch.dict', 'patch.object')
-        tgt = a.args[0].value if ok and a.args and isinstance(a.args[0], ast.Constant) else None
-        targets.append(tgt)
-        ctx.check(ok, 'R4', '_start_patches-arg:%s' % (tgt or norm(a)[:30]), mod, a,
-                  "argument of _start_patches is not a unittest.mock patch object", "its .stop() restores nothing")
-    for needed in ('sys.modules', 'sys.stdout', 'time.sleep'):
-        ctx.check(needed in targets, 'R4', 'patched:' + needed, mod, sp_calls[0],
-                  "%s is no longer borrowed through a tracked patch" % needed,
-                  "student code observes/changes the real %s" % needed)
     # the stdout patch installs the very buffer pushed for this execution: decided by executing _start_mocking
     # abstractly with marker objects (shared with C15.R2)
     from .c15 import start_mocking_observations
+    from ..fdeval import Obj as _Obj
     for tag, ob in start_mocking_observations(ctx, Symbols(ctx.repo), mod):
         ctx.check(ob['patched_with_pushed'], 'R4', 'patched:sys.stdout=top-of-stack' + tag, mod, stm,
                   "sys.stdout is not patched with the buffer pushed for this execution",
                   "output of this execution lands in another buffer")
+        # what is handed to _start_patches: objects made by unittest.mock's patch / patch.dict (whose stop() restores
+        # the whole target), one each for the module table, standard output and time.sleep
+        started = ob['started']
+        foreign = [a for a in started if not (isinstance(a, _Obj) and a._name == 'patch')]
+        ctx.check(ob['raised'] is None and not foreign, 'R4', '_start_patches-args:unittest.mock-patches' + tag, mod,
+                  stm, "an object handed to _start_patches was not made by unittest.mock's patch()/patch.dict(): %r" % (
+                      foreign[:2],), "its .stop() is pedal's own code and restores only what that code remembers "
+                  "(modules the student imported stay in sys.modules)")
+        targets = [a.attrs.get('target') for a in started if isinstance(a, _Obj)]
+        for needed in ('sys.modules', 'sys.stdout', 'time.sleep'):
+            ctx.check(targets.count(needed) == 1, 'R4', 'patched:' + needed + tag, mod, stm,
+                      "%s is borrowed through %d tracked patch(es) instead of one" % (needed, targets.count(needed)),
+                      "student code observes/changes the real %s" % needed)
     import_ok = ctx.repo.module(SANDBOX)
     patch_b = Symbols(ctx.repo).lookup(SANDBOX, 'patch')
     ctx.check(patch_b is not None and patch_b.kind == 'importfrom' and patch_b.target == 'unittest.mock',
